@@ -21,7 +21,8 @@ Supported subset
                   ASSERT ... ; (parsed, ignored)   NULL;
   expressions     and or xor nand nor xnor not, = /= < <= > >=, + - * &, names, name(i), name(h downto l),
                   calls / conversions f(args), character / bit-string / integer / boolean literals,
-                  aggregates (others => 'c') and (0 => e), s'event
+                  aggregates (others => 'c') and (0 => e), s'event, qualified expressions UNSIGNED'(e),
+                  memory(to_integer(a)) on the array signal of a GenericMemoryEntity (interpreter only)
 """
 import re
 
@@ -173,6 +174,7 @@ class Parser:
         return (name.lower() + (".body" if is_body else "")), text
 
     def entity(self):
+        self.types, self.ints = {}, {}
         self.expect_kw("entity")
         name = self.ident()
         self.expect_kw("is")
@@ -673,6 +675,14 @@ class Parser:
                         a = ("dynindex", a, args[0])      # element of an array signal; resolved at elaboration
                     else:
                         raise Unsupported("call of unknown function")
+            elif self.is_sym("'") and self.is_sym("(", 1):
+                # qualified expression  UNSIGNED'(expr)
+                if a[0] != "name" or a[1].lower() not in ("unsigned", "std_logic_vector"):
+                    raise Unsupported("qualified expression of an unsupported type")
+                self.next(); self.next()
+                inner = self.expr()
+                self.expect_sym(")")
+                a = ("qual", "uns" if a[1].lower() == "unsigned" else "slv", inner)
             elif self.is_sym("'"):
                 self.next()
                 attr = self.ident().lower()
@@ -795,6 +805,8 @@ def names_read(e, acc):
         names_read(e[1], acc)
     elif k == "dynindex":
         names_read(e[1], acc); names_read(e[2], acc)
+    elif k == "qual":
+        names_read(e[2], acc)
     elif k == "call":
         for a in e[2]:
             names_read(a, acc)
